@@ -103,6 +103,42 @@ impl Graph {
         self.needs.retain(|j, _| self.kind.contains_key(j));
         self.uses.retain(|j, _| self.kind.contains_key(j));
     }
+    /// `Names` convention: every consumer needs the FIRST output name of each of its upstreams (so
+    /// a multi-output upstream gaining or losing one of its other outputs leaves its consumers'
+    /// input-name lists alone); `uses` is restricted accordingly
+    pub fn normalise_names(&mut self) {
+        let um = self.ups_map();
+        for (j, ups) in um.iter() {
+            let mut all = BTreeSet::new();
+            for u in ups {
+                all.insert(names_of(u)[0].clone());
+            }
+            let uses = self.uses.entry(j.clone()).or_default();
+            uses.retain(|n| all.contains(n));
+            self.needs.insert(j.clone(), all);
+        }
+        self.needs.retain(|j, _| self.kind.contains_key(j));
+        self.uses.retain(|j, _| self.kind.contains_key(j));
+    }
+    /// give a job another id (multi-output jobs are named after their outputs)
+    pub fn rename_job(&mut self, old: &str, new: &str) {
+        if let Some(k) = self.kind.remove(old) {
+            self.kind.insert(new.to_string(), k);
+        }
+        let es: Vec<(String, String)> = self.edges.iter().cloned().collect();
+        self.edges.clear();
+        for (a, b) in es {
+            let a2 = if a == old { new.to_string() } else { a };
+            let b2 = if b == old { new.to_string() } else { b };
+            self.edges.insert((a2, b2));
+        }
+        if let Some(x) = self.uses.remove(old) {
+            self.uses.insert(new.to_string(), x);
+        }
+        if let Some(x) = self.needs.remove(old) {
+            self.needs.insert(new.to_string(), x);
+        }
+    }
     /// topological order (Kahn, ties in id order)
     pub fn topo(&self) -> Vec<String> {
         let um = self.ups_map();
@@ -338,6 +374,16 @@ pub fn apply_edit(u: &Universe, w: &World, e: &Edit) -> World {
             if let Some(x) = u.g.uses.get(j) {
                 w2.g.uses.insert(j.clone(), x.clone());
             }
+            // consumers of the re-added job use its outputs again, as the universe says
+            for (a, b) in u.g.edges.iter() {
+                if a == j && w2.g.kind.contains_key(b) {
+                    if let Some(x) = u.g.uses.get(b) {
+                        let names = names_of(j);
+                        let add: Vec<String> = x.iter().filter(|n| names.contains(n)).cloned().collect();
+                        w2.g.uses.entry(b.clone()).or_default().extend(add);
+                    }
+                }
+            }
         }
         Edit::RmEdge(a, b) => {
             w2.g.edges.remove(&(a.clone(), b.clone()));
@@ -373,8 +419,7 @@ pub fn apply_edit(u: &Universe, w: &World, e: &Edit) -> World {
     if w2.conv == Conv::Ids {
         w2.g.normalise_ids();
     } else {
-        w2.g.needs.retain(|j, _| w2.g.kind.contains_key(j));
-        w2.g.uses.retain(|j, _| w2.g.kind.contains_key(j));
+        w2.g.normalise_names();
     }
     w2
 }
@@ -415,9 +460,11 @@ pub fn single_edits(u: &Universe, w: &World, classes: &str) -> Vec<Edit> {
         // a multi-output job gains or loses an output, thereby changing its id
         for j in w.g.kind.keys() {
             let parts = names_of(j);
-            if !parts.iter().any(|p| p == "zz") {
+            // the extra output is named after the job's first output: output names are unique
+            let extra = format!("{}z", parts[0]);
+            if !parts.iter().any(|p| *p == extra) {
                 let mut p2 = parts.clone();
-                p2.push("zz".to_string());
+                p2.push(extra);
                 out.push(Edit::Rename(j.clone(), p2.join(":::")));
             }
             if parts.len() > 1 {
